@@ -31,13 +31,26 @@ class C09(PropBase):
                 "translator regenerates from mod.rs and the pinned circular crate on every run (c09_source_pins); the correspondence "
                 "compares the whole read/callback event sequence (c09_trace_is_run). Oracle additions: numeric-boundary files carry a "
                 "format-derived verdict (ok / bad). The evidence records which record kinds, error branches and buffer transitions "
-                "the generated cases exercise (input_distribution.features / holes).",
-        "note": "Trusted: Coq kernel; hand-written models of mod.rs, parser.rs, circular 0.3.0 indices (correspondence-checked, not verified); "
-                "buffer contents abstracted (FIFO contract, checked per case by comparing callback bytes with the input); the loop of "
-                "mod.rs and circular's consume/fill/grow/shift are additionally pinned by translator + proof. No axioms.",
+                "the generated cases exercise (input_distribution.features / holes). "
+                "Round 5: circular::Buffer WITH its memory (coq/C09/Circular.v: with_capacity zero fill, data()/space() slices, shift = "
+                "memmove, grow = resize(n, 0), the reader writing into space()). For ANY sequence of operations the byte-level buffer "
+                "projects onto the index model and data() is a FIFO queue of bytes (c09_buffer_refines_fifo) - the former trusted FIFO "
+                "contract is now a theorem. The parse loop run on real bytes takes the branches of the index model, never hits a slice "
+                "panic, and callback bytes ++ data() ++ unread bytes = input in every reachable state, so the callback gets exactly the "
+                "first total_consumed bytes and data() is the window of the input Model.v assumed (c09_window_is_input); the newline "
+                "search on the real bytes of data() equals Model.first_nl and the prefix of data() up to its last newline (what "
+                "parse_more keeps) is the concatenation of the lines Model.pm walks over (c09_data_is_the_lines). The byte-level "
+                "operations are rebuilt from the operands a second translator reads off the crate source and proved equal to the model's "
+                "(c09_memory_ops_are_source). Compared with the code: the harness reader looks at every space() slice before writing; "
+                "the stale bytes it sees (first/last 32 of each slice) are predicted by the extracted byte-level run on every case "
+                "that is cheap enough (c09_bytes_trace_is_run, c09_bytes_run_is_drive).",
+        "note": "Trusted: Coq kernel; hand-written models of mod.rs, parser.rs and of circular 0.3.0 (indices and, since round 5, memory: "
+                "ptr::copy read as memmove, Vec::resize as append of the fill value) - correspondence-checked (events, space() contents, "
+                "callback bytes), pinned by two translators + proofs, not verified against rustc semantics. No axioms.",
     }
-    assumptions = ["circular::Buffer keeps its bytes in order (FIFO contract: fill appends, consume drops from the front, shift/grow keep the bytes): "
-                   "assumed by the index-only buffer model, checked on every case by comparing the callback bytes with the input",
+    assumptions = ["the byte-level model of circular::Buffer (coq/C09/Circular.v) reads ptr::copy as memmove and Vec::resize as appending the fill "
+                   "value; the FIFO behaviour of data() is proved from that (c09_buffer_refines_fifo), and checked on every case by comparing "
+                   "callback bytes with the input and the contents of space() with the model's memory",
                    "inputs have fewer than 2^64 bytes (c09_counters_fit_u64)",
                    "known finding F-C09a (over-long group header orphans its sub-lines) is recorded, not fixed"]
 
